@@ -450,7 +450,12 @@ pub fn execute_bigsid(plan: &BigSidPlan, trace: bool) -> Exec {
         let mut sent = Vec::new();
         for (i, l) in plan.lens.iter().enumerate() {
             let body = payload_of(plan.seed, i as u64, (*l).max(4));
-            let mut d = qid.clone();
+            // the quarter stream id in every varint length the value admits (non-shortest forms are
+            // legal on the wire and must not disturb the payload)
+            let mut d = Vec::new();
+            let shortest = rc::varint_len(sid / 4);
+            let want = [shortest, 2, 4, 8][i % 4].max(shortest);
+            rc::put_varint_len(sid / 4, want, &mut d);
             d.extend_from_slice(&body);
             if conn.send_datagram(d.into()).is_ok() {
                 sent.push(body);
@@ -549,7 +554,7 @@ impl TypedScenario for C03BigSid {
         };
         let mut net = NetCfg::clean(rng.next_u64());
         net.lat_min_us = 500;
-        BigSidPlan { seed, rt: RtKnobs::from_rng(&mut rng), net, burn, lens: (0..rng.usize(1, 6)).map(|_| rng.usize(4, 1000)).collect() }
+        BigSidPlan { seed, rt: RtKnobs::from_rng(&mut rng), net, burn, lens: (0..rng.usize(4, 8)).map(|_| rng.usize(4, 1000)).collect() }
     }
     fn execute(&self, plan: &BigSidPlan, trace: bool) -> Exec {
         execute_bigsid(plan, trace)
@@ -564,7 +569,7 @@ pub fn def() -> PropertyDef {
             Box::new(Typed(C03E2E { faulty: true })),
             Box::new(Typed(C03BigSid)),
         ],
-        rule: "e2e-*: real client and server; the first 28 runs sweep the peer's datagram receive limit (None, 1,2,3,5,8,9,10,11,20,64,1200,1500,65535) on either side, the rest sample it; size-contract probe with no await between max_datagram_size() and the sends (lengths 0,1,m-1,m must not be TooLarge; m+1,m+2,m+10 must be; None exactly when the peer disabled datagrams or nothing fits); 1-4 bursts of 1-12 unique payloads (lengths 0..max incl. max-0..3) in both directions with 1-3 concurrent receive_datagram callers per side; oracle: received multiset is a sub-multiset of the sent one (never altered, merged, truncated, duplicated, framing never visible; payload() == deref). raw-large-session-id: a raw client burns stream ids so the session id needs a 2-byte (quick) or 4-byte (thorough) quarter stream id; checks delivery, the exact wire form (shortest quarter-id varint + payload) and the size contract with a multi-byte header. 8-byte quarter ids need 2^28 streams and are out of reach in situ. Non-trivial = something was delivered or a size probe ran, and (fault batch) a fault fired; distinct = distinct plan hashes.",
+        rule: "e2e-*: real client and server; the first 28 runs sweep the peer's datagram receive limit (None, 1,2,3,5,8,9,10,11,20,64,1200,1500,65535) on either side, the rest sample it; size-contract probe with no await between max_datagram_size() and the sends (lengths 0,1,m-1,m must not be TooLarge; m+1,m+2,m+10 must be; None exactly when the peer disabled datagrams or nothing fits); 1-4 bursts of 1-12 unique payloads (lengths 0..max incl. max-0..3) in both directions with 1-3 concurrent receive_datagram callers per side; oracle: received multiset is a sub-multiset of the sent one (never altered, merged, truncated, duplicated, framing never visible; payload() == deref). raw-large-session-id: a raw client (which encodes the quarter stream id of its datagrams in every varint length, shortest and non-shortest) burns stream ids so the session id needs a 2-byte (quick) or 4-byte (thorough) quarter stream id; checks delivery, the exact wire form (shortest quarter-id varint + payload) and the size contract with a multi-byte header. 8-byte quarter ids need 2^28 streams and are out of reach in situ. Non-trivial = something was delivered or a size probe ran, and (fault batch) a fault fired; distinct = distinct plan hashes.",
         assumptions: vec![
             "under injected loss the datagram oracle is inclusion (datagrams may be lost or reordered), never equality; UDP-level duplication must be absorbed by QUIC",
             "quinn/rustls/tokio executed for real but trusted; current-thread runtime",
